@@ -189,7 +189,7 @@ class C18(Property):
                 ctx.disagree("build_graph vs model", f"graph {case['idx']}: real `{exp}`, model `{g}`", {"graph": case})
         # ---- end to end -------------------------------------------------------------------------
         rcases = _recov_cases(rng, quick)
-        for case, status, r in pmap(recov.run_case, rcases, timeout=240, workers=6):
+        for case, status, r in pmap(recov.run_case, rcases, timeout=900, workers=6):
             if status != "ok":
                 ctx.fail("run:" + status, f"{case['name']}: {str(r)[:300]}", {"recovery": case})
                 continue
